@@ -70,7 +70,10 @@ let () =
        | "thread" :: _ :: ":" :: rest -> progs := !progs @ [List.map cmd (split_on ";" rest)]
        | "schedule" :: ":" :: rest ->
            let tr = qc_run_case (nat_of_int !fuel) !progs (List.map nat rest) in
-           List.iter print_act tr
+           List.iter print_act tr;
+           (* side condition of the C07 wake-up theorems, checked on every replayed schedule *)
+           if not (qc_side_ok (nat_of_int !fuel) !progs (List.map nat rest)) then
+             print_string "MODEL-SIDE-CONDITION local code cut short by the fuel of QConc.advance\n"
        | ["end"] -> print_string "end\n"
        | _ -> failwith ("bad line: " ^ line)
      done
